@@ -34,6 +34,7 @@ class Builder:
         self.rng = random.Random(seed)
         self.extra_assumptions = []   # callables(ctx, vc) -> list of smt strings, or plain strings
         self.bounds = {}
+        self.phi_names = []
 
     def _add(self, name, kind, shape, value=None):
         assert all(i.name != name for i in self.inputs), name
@@ -44,6 +45,14 @@ class Builder:
     def pos(self, name, shape): return self._add(name, "pos", shape)
     def spd(self, name, R, D): return self._add(name, "spd", (R, D, D))
     def diag(self, name, R, D): return self._add(name, "diag", (R, D, D))
+
+    def phi_slots(self, n):
+        """reserve n field generators for values of the standard normal cdf (see gtverif/phi.py)"""
+        self.phi_names = [f"PHI_{k}" for k in range(n)]
+
+    def assume(self, smt_fn):
+        """extra assumption: callable(ctx, vc) -> SMT-LIB boolean term over the declared variables"""
+        self.extra_assumptions.append(smt_fn)
 
     def derived(self, name, shape, fn):
         """an input whose entries are functions of earlier inputs (e.g. a precision supplied
@@ -87,7 +96,7 @@ class Builder:
 
     # ---- materialisation
     def names(self):
-        names, positive = [], []
+        names, positive = list(self.phi_names), []
         for i in self.inputs:
             if i.kind in ("free", "pos"):
                 for idx in np.ndindex(*i.shape):
@@ -156,7 +165,7 @@ class Case:
     """
 
     def __init__(self, cid, prop, config, declare, fn, claims, timeout=120, hooks=None, normals=None,
-                 noninterference=None, notes=None, adjusted=None):
+                 noninterference=None, notes=None, adjusted=None, env=None):
         self.id, self.prop, self.config = cid, prop, config
         self.declare, self.fn, self.claims = declare, fn, claims
         self.timeout = timeout
@@ -167,6 +176,7 @@ class Case:
         # (finding id, claims_fn): the property re-stated modulo one specific known defect; if the
         # plain VC is sat but this one is unsat the violation is exactly that finding
         self.adjusted = adjusted
+        self.env = env          # optional callable(ctx, rng) -> numeric environment satisfying the case's assumptions
 
 
 def _flat(x):
@@ -219,6 +229,11 @@ def random_env(ctx, rng, lo=-1.5, hi=1.5):
     return env
 
 
+def gen_env(case, ctx, rng):
+    env = case.env(ctx, rng) if getattr(case, "env", None) else random_env(ctx, rng)
+    return env
+
+
 def run_case(case, seed=0, solver_timeout_ms=60000, cvc5=False, selfcheck_points=2):
     """returns a result dict (JSON-serialisable)"""
     import jax
@@ -235,6 +250,13 @@ def run_case(case, seed=0, solver_timeout_ms=60000, cvc5=False, selfcheck_points
     ctx = Ctx(names, positive)
     I = b.build(ctx)
     order = [i.name for i in b.inputs]
+    hooks = dict(case.hooks or {})
+    if b.phi_names:
+        from .phi import PhiTable
+        ctx.phi = PhiTable(ctx, b.phi_names)
+        hooks.update(ctx.phi.hooks())
+    # assumptions declared by the case must be visible to the sign oracle during interpretation
+    _vc_tmp = None
     res["n_vars"] = len(names)
     res["symbolic_blocks"] = [i.name for i in b.inputs if i.kind != "const"]
     res["concrete_blocks"] = [i.name for i in b.inputs if i.kind == "const"]
@@ -243,6 +265,8 @@ def run_case(case, seed=0, solver_timeout_ms=60000, cvc5=False, selfcheck_points
     sign_stats = {"queries": 0, "time": 0.0}
     vc0 = VC(ctx)
     vc0.bounds = dict(b.bounds)
+    for a in b.extra_assumptions:
+        ctx.extra_smt.append(a if isinstance(a, str) else a(ctx, vc0))
     def sign_oracle(k):
         out = None
         for sg, op in ((1, "<="), (-1, ">=")):
@@ -268,7 +292,7 @@ def run_case(case, seed=0, solver_timeout_ms=60000, cvc5=False, selfcheck_points
             return z
     # ---------------------------------------------------------------- symbolic execution
     try:
-        O, it, cj = run_symbolic(ctx, fn_pos, [I[n] for n in order], hooks=case.hooks, fresh_normals=fresh)
+        O, it, cj = run_symbolic(ctx, fn_pos, [I[n] for n in order], hooks=hooks, fresh_normals=fresh)
     except Unsupported as ex:
         res.update(status="inconclusive", detail=f"Unsupported: {ex}", t_sym=time.time() - t0)
         return res
@@ -277,7 +301,7 @@ def run_case(case, seed=0, solver_timeout_ms=60000, cvc5=False, selfcheck_points
         rng = random.Random(seed + 17)
         best = None
         for _ in range(2):
-            rep = _replay(case, I, random_env(ctx, rng))
+            rep = _replay(case, I, gen_env(case, ctx, rng))
             best = rep
             if rep.get("reproduced"):
                 break
@@ -294,7 +318,7 @@ def run_case(case, seed=0, solver_timeout_ms=60000, cvc5=False, selfcheck_points
         ex = tr.ex
         # replay with concrete floats
         rng = random.Random(seed + 17)
-        env = random_env(ctx, rng)
+        env = gen_env(case, ctx, rng)
         If = eval_inputs(I, env)
         try:
             real_run(case, If)
@@ -329,8 +353,10 @@ def run_case(case, seed=0, solver_timeout_ms=60000, cvc5=False, selfcheck_points
     rng = random.Random(seed + 1)
     sc_max = 0.0
     for _ in range(selfcheck_points):
-        env = random_env(ctx, rng)
+        env = gen_env(case, ctx, rng)
         If = eval_inputs(I, env)
+        for fx in ctx.env_fixups:
+            fx(env)
         try:
             Of = real_run(case, If)
         except Exception as ex:
@@ -362,8 +388,6 @@ def run_case(case, seed=0, solver_timeout_ms=60000, cvc5=False, selfcheck_points
     # ---------------------------------------------------------------- VC
     vc = VC(ctx)
     vc.bounds = dict(b.bounds)
-    for a in b.extra_assumptions:
-        vc.extra.append(a if isinstance(a, str) else a(ctx, vc))
     nclaims = 0
     shape_bad = [c for c in cl if c[0] == "SHAPE" and tuple(c[2]) != tuple(c[3])]
     res["static_shape_checks"] = sum(1 for c in cl if c[0] == "SHAPE")
@@ -371,7 +395,7 @@ def run_case(case, seed=0, solver_timeout_ms=60000, cvc5=False, selfcheck_points
     if shape_bad:
         # a malformed batch (components of one object with different leading dimensions): confirm on the real code
         rng = random.Random(seed + 23)
-        rep = _replay(case, I, random_env(ctx, rng))
+        rep = _replay(case, I, gen_env(case, ctx, rng))
         res["replay"] = rep
         res["violated"] = [f"shape:{c[1]} {tuple(c[2])} vs {tuple(c[3])}" for c in shape_bad][:6]
         if rep.get("shape_mismatch"):
@@ -492,7 +516,7 @@ def run_case(case, seed=0, solver_timeout_ms=60000, cvc5=False, selfcheck_points
                 return res
             rng = random.Random(seed + 9)
             best = None
-            for env in [dict({n: float((mi or {}).get(n, 1.0)) for n in ctx.names}, PI=math.pi)] + [random_env(ctx, rng) for _ in range(4)]:
+            for env in [dict({n: float((mi or {}).get(n, 1.0)) for n in ctx.names}, PI=math.pi)] + [gen_env(case, ctx, rng) for _ in range(4)]:
                 rep = _replay(case, I, env)
                 if best is None or rep.get("reproduced"):
                     best = rep
@@ -541,7 +565,7 @@ def run_case(case, seed=0, solver_timeout_ms=60000, cvc5=False, selfcheck_points
         # the z3 model may be badly conditioned (or depend on PI != pi): the violated obligations are
         # polynomial inequations, so generic well-conditioned points violate them too
         for _ in range(3):
-            env = random_env(ctx, rng)
+            env = gen_env(case, ctx, rng)
             rep = _replay(case, I, env)
             rep["model_kind"] = "generic-point-after-sat"
             if best is None or rep.get("max_err", 0) > best.get("max_err", 0):
